@@ -487,11 +487,13 @@ class Judge:
         if faults:
             self.bad += 1
             for f in faults:
-                sig = "%s-via-%s-to-%s" % (f, origin["op"], origin["rcpt"])
+                sig = "%s-via-%s" % (f, origin["op"])
                 n = self.sig_seen.get(sig, 0)
                 self.sig_seen[sig] = n + 1
-                if n < 2:
-                    self.ctx.violation(sig, "delivered line violates C15 (%s): %d bytes %r" % (f, len(b), b[:160]),
+                if n < 1:
+                    self.ctx.violation(sig, "line delivered to %s violates C15 (%s): %d bytes %r" % (
+                                       {"self": "the sender", "other": "ANOTHER session", "vic": "ANOTHER session"}.get(origin["rcpt"], "a session"),
+                                       f, len(b), b[:160]),
                                        {"program": origin.get("prog"), "case": origin.get("case"), "sent": origin.get("text"),
                                         "op": origin["op"], "recipient": origin["rcpt"], "line": data})
         return faults
